@@ -387,7 +387,7 @@ class Gen:
 
     def function(self, sc):
         self.fn_count += 1
-        kind = self.r.randrange(24)
+        kind = self.r.randrange(25)
         name = f"f{self.fn_count}"
         deco = ""
         if self.chance(self.o["decorators"]):
@@ -475,6 +475,13 @@ class Gen:
                 call = f"{name}({arg()}, {arg()})" if two else f"{name}({arg()})"
                 out.append(self.pick([f"println({call})", f"let {name}r = {call}\nprintln({name}r)", f"println({call} + {call})"]))
             out.append(f"println({name}c)")
+        elif kind == 24:        # a for-each / for variable named like an enclosing immutable literal local of the function
+            self.features.add("foreach-var-shadows-const-local")
+            v = self.pick(["v", "item", "k"])
+            form = self.pick([f"for {v} in [1, 2, 3] {{ t = t + {v} }}", f"for {v} in Vec[4, 5] {{ t = t * 10 + {v} }}",
+                              f"for {v} in \"ab\" {{ t = t + 1; print({v}) }}", f"for {v} in 0..3 {{ t = t + {v} }}"])
+            out.append(f"fn {name}() {{\n    let {v} = 100\n    let mut t = 0\n    {form}\n    return t * 1000 + {v}\n}}")
+            out.append(f"println({name}())")
         elif kind == 23:        # a loop whose body ends in `return`, code after the loop, run with zero and with some iterations
             self.features.add("loop-body-ends-in-return")
             loop = self.pick(["for i in lo..hi {{ {b} }}", "while lo < hi {{ {b} }}", "for c in s {{ {b} }}"])
@@ -551,6 +558,10 @@ class Gen:
             out.append(f"    let mut a = {self.r.randrange(1, 9)}")
             out.append(f"    let b = a {op} (a = {self.r.randrange(10, 20)})")
             out.append(f"    let z = x {op} (x {op} bump())")
+            out.append(f"    let u = x {op} (if x > 0 {{ bump() }} else {{ 0 }})")
+            out.append(f"    let v = a {op} (if a > 100 {{ 0 }} else {{ (a = a + 1) }})")
+            out.append(f"    let w = x {op} [bump(), 1][0]")
+            out.append(f"    println(u * 100 + v + w)")
             out.append(f"    return y * 10000 + b * 100 + z + a + x")
             out.append("}")
             out.append(f"println({name}())")
@@ -806,6 +817,18 @@ class Gen:
                 chunks.append(self.stmt(sc, 0))
         if self.chance(self.o.get("forward_refs", 0.15)):
             self.forward_refs(chunks)
+        if self.chance(0.08):
+            # the FIRST effectful statement of the program is a top-level `let` whose initialiser hides a
+            # call (in a format string, an if-expression, an array literal, parentheses) of a function that
+            # reads a top-level constant defined only later: at that moment the constant is still null
+            self.features.add("early-call-in-initialiser")
+            k = self.r.randrange(1000)
+            g, rd = f"LIM{k}", f"early{k}"
+            init = self.pick([f'"status {{{rd}()}}"', f"(if true {{ {rd}() }} else {{ 0 }})", f"[{rd}(), 1]", f"(({rd}()))", f"{rd}() + 1"])
+            pre = [f"fn {rd}() {{\n    println({g})\n    if {g} == null {{ return 0 }}\n    return 1\n}}",
+                   f"let b{k} = {init}", f"let {g} = {self.r.randrange(2, 9)}", f"println(b{k})", f"println({rd}())"]
+            quiet = [c for c in chunks if c and all(l.startswith("fn ") and "\n" not in l and "print" not in l for l in c)]
+            chunks = quiet + [[l] for l in pre] + [c for c in chunks if c not in quiet]
         out = [l for c in chunks for l in c]
         # final value
         if self.chance(0.7):
